@@ -74,6 +74,9 @@ func parseArgs() *Context {
 	}
 	keys = kw
 	var split = func(s *string) []string {
+		if strings.TrimSpace(*s) == "" {
+			return nil // 未指定: 使用默认的标签列表
+		}
 		a := strings.Split(*s, ",")
 		var result = make([]string, 0, len(a))
 		for _, i := range a {
